@@ -236,7 +236,7 @@ func setAt(root map[string]interface{}, p jpath, val interface{}, del bool) {
 	}
 }
 
-var hostileStr = []string{"", "fe80::1", "2001:db8::/32", "::/0", "300.1.1.1/40", "10.0.0.0/33", "10.0.0.1", "0.0.0.0/0", "null", "ünï", "-1", "0", "65536", "TCP", "udp", "Pass", "http", strings.Repeat("x", 300)}
+var hostileStr = []string{"ingress-controller-ns", "ingress-controller", "", "fe80::1", "2001:db8::/32", "::/0", "300.1.1.1/40", "10.0.0.0/33", "10.0.0.1", "0.0.0.0/0", "null", "ünï", "-1", "0", "65536", "TCP", "udp", "Pass", "http", strings.Repeat("x", 300)}
 var hostileIP = []string{"fe80::1", "not-an-ip", "", "300.1.1.1", "::ffff:10.0.0.1", "10.0.0.1/24", "::1", "0.0.0.0", "255.255.255.255"}
 var hostileCIDR = []string{"2001:db8::/32", "::/0", "10.0.0.0/33", "300.1.1.1/8", "10.0.0.1", "", "10.0.0.0/-1", "0.0.0.0/0", "10.1.2.3/8"}
 var ipRe = regexp.MustCompile(`^\d+\.\d+\.\d+\.\d+$`)
@@ -256,6 +256,8 @@ var c12Grafts = map[string][]struct {
 		{jpath{"status"}, `{"hostIP":"10.0.0.1","podIPs":[{"ip":"fe80::2"},{"ip":""}]}`},
 		{jpath{"status"}, `{"hostIP":"10.0.0.1","podIP":"10.0.0.9"}`},
 		{jpath{"spec", "containers"}, `[]`},
+		{jpath{"metadata", "namespace"}, `"ingress-controller-ns"`},
+		{jpath{"metadata", "name"}, `"ingress-controller"`},
 		{jpath{"spec", "containers"}, `[{"name":"c","ports":[{"containerPort":0},{"name":"","containerPort":70000,"protocol":"ICMP"}]}]`},
 	},
 	"Ingress": {
@@ -290,6 +292,8 @@ var c12Grafts = map[string][]struct {
 		{jpath{"spec", "ingress"}, `[{"ports":[{"protocol":"ICMP","port":80}]}]`},
 		{jpath{"spec", "ingress"}, `[{"ports":[{"protocol":"","port":""}]}]`},
 		{jpath{"spec", "podSelector"}, `{}`},
+		// the namespace / pod name the tool itself uses for its fake ingress-controller pod
+		{jpath{"metadata", "namespace"}, `"ingress-controller-ns"`},
 		{jpath{"spec", "policyTypes"}, `["Ingress","Egress","Bogus"]`},
 		{jpath{"spec", "policyTypes"}, `[]`},
 		{jpath{"spec", "ingress"}, `[{"from":[{"podSelector":null,"namespaceSelector":null,"ipBlock":null}]}]`},
@@ -318,7 +322,7 @@ var c12Grafts = map[string][]struct {
 		{jpath{"spec", "subject"}, `{}`},
 		{jpath{"spec", "ingress"}, `[{"action":"Pass","from":[{"namespaces":{}}]}]`},
 	},
-	"Namespace": {{jpath{"metadata", "labels"}, `null`}, {jpath{"metadata", "name"}, `""`}},
+	"Namespace": {{jpath{"metadata", "labels"}, `null`}, {jpath{"metadata", "name"}, `""`}, {jpath{"metadata", "name"}, `"ingress-controller-ns"`}},
 }
 
 func pathStr(p jpath) string {
@@ -406,7 +410,7 @@ func mutateDoc(t *rapid.T, doc map[string]interface{}, others []map[string]inter
 			case x == "Allow" || x == "Deny" || x == "Pass":
 				setAt(d, p, rapid.SampledFrom([]string{"pass", "Block", "", "Pass", "Allow"}).Draw(t, label+"ha"), false)
 			default:
-				setAt(d, p, rapid.SampledFrom([]interface{}{"", strings.Repeat("n", 260), "a/b/c", "-", 7}).Draw(t, label+"hn"), false)
+				setAt(d, p, rapid.SampledFrom([]interface{}{"", strings.Repeat("n", 260), "a/b/c", "-", 7, "ingress-controller-ns", "ingress-controller", "representative-pod", "default"}).Draw(t, label+"hn"), false)
 			}
 		case float64, int, int64:
 			setAt(d, p, rapid.SampledFrom([]interface{}{0, -1, 65536, 65535, "80", 2147483648, 1.5}).Draw(t, label+"hnum"), false)
@@ -616,6 +620,15 @@ func checkC12(c *C12Case, st *VStats) *VFailure {
 					_, _ = pe.CheckIfAllowed("10.1.2.3", b, "SCTP", "1")
 					_, _ = pe.CheckIfAllowed("192.168.49.2", b, "TCP", "1")
 					_, _ = pe.CheckIfAllowed(a, b, "TCP", "http")
+					// query peers are input too: IPv6 literals, CIDRs, garbage, unknown pods
+					for _, hp := range []string{"fe80::1", "::1", "2001:db8::/32", "10.0.0.0/33", "300.1.1.1", "", "no-such-pod", "ns/", "/x", "10.0.0.0/8"} {
+						_, _ = pe.CheckIfAllowed(a, hp, "TCP", "80")
+						_, _ = pe.CheckIfAllowed(hp, b, "udp", "53")
+					}
+					_, _ = pe.CheckIfAllowed(a, b, "ICMP", "80")
+					_, _ = pe.CheckIfAllowed(a, b, "TCP", "-1")
+					_, _ = pe.CheckIfAllowed(a, b, "TCP", "70000")
+					_, _ = pe.CheckIfAllowed(a, b, "", "")
 				}
 			}
 		}))
